@@ -17,7 +17,8 @@ TRUST_E1 = ("Trusted: the hand-written definition tables (data/*.json), the mode
             "small-scope argument of DESIGN.md section 3, not by execution. That one evaluation per input covers every "
             "history is itself explored: all ordered pairs (c1, c2) of one call alphabet spanning every operation kind and "
             "type (about 8 400 calls per back-end) are executed, and c2 must observe what it observes from any other "
-            "history (DESIGN.md 9.9); thread interleavings are not enumerated - the library has no synchronisation to hook.")
+            "history (DESIGN.md 9.9), and all triples over a reduced alphabet of about 300 calls (9.11); thread interleavings are "
+            "not enumerated - the library has no synchronisation to hook.")
 
 # id -> (engine, technique, level text, level note, design ref)
 CLAIMED = {
@@ -48,7 +49,8 @@ CLAIMED = {
             TRUST_E1, "5.8"),
     "C10": (E1, "exhaustive enumeration of operand pairs over finite alphabets on the real code; oracle: panic-or-bit-identical",
             "Every ordered unit pair of every type without reference unit x every pair of alphabet amounts (equal amounts in "
-            "different units included): comparisons, and + - / under catch_unwind; the documented panic must occur exactly "
+            "different units included): all relational forms (== != < <= > >=, partial_cmp and the PartialOrd methods, "
+            "every value also against itself as one object), and + - / under catch_unwind; the documented panic must occur exactly "
             "when units differ. Each back-end is explored in two builds: dev profile and the same build without debug "
             "assertions / overflow checks, because a panic that exists only in one of them is a violation too.",
             TRUST_E1, "5.10"),
@@ -66,9 +68,9 @@ CLAIMED = {
     "C06": (E2, "exhaustive enumeration of a bounded program grammar (all ordered type pairs x 12 operator forms; all derivation graphs with <= 2 derived types), each program type-checked by rustc against the real crate and compared with the model's closure of the declared derivations",
             "All ordered type pairs x 12 operator forms (+ - * / == <, and the in-place and remainder forms += -= *= /= % %=, "
             "which must be rejected wherever they are dimensionally meaningless) over the catalogue in both back-ends, the "
-            "astronomical crate, every cross-crate pair, and 132 derivation graphs (each with a single-unit and a "
+            "astronomical crate, every cross-crate pair, a crate with two modules declaring the same names and derivations, and 132 derivation graphs (each with a single-unit and a "
             "no-reference-unit bystander type) with their complete program sets (or whole-crate rejection where derivations "
-            "collide): 83 128 verdicts (thorough: graphs with three derived types), each compared with the verdict and "
+            "collide): 86 032 verdicts (thorough: graphs with three derived types), each compared with the verdict and "
             "result type predicted from the declarations. Rejected programs carry no type ascription, so an unexpected "
             "operator with any result type is caught.",
             "Trusted: rustc's type checker, the declared derivations in data/catalogue.json, attribution of diagnostics to programs by line. Graphs with more than two derived types or three base types are outside the bound.", "5.6"),
@@ -83,26 +85,30 @@ CLAIMED = {
             "upper-snake-case constants are probed by compiling one program per unit (E2).",
             TRUST_E1, "5.9"),
     "C11": (E2, "exhaustive enumeration of a bounded grammar of well-formed #[quantity] definitions (all attribute permutations, literal spellings, prefix/doc patterns, kinds); each compiled with the real macro and executed, its registry dump and operator corpus compared with a Python model of the declaration",
-            "~960 (quick) / ~5 600 (thorough) definitions per back-end - including declarations with 25 and 44 units, scale "
-            "literals with up to 19 significant digits and integer literals beyond 2^53 -, every one compiled and executed against the real crate; "
+            "~975 (quick) / ~5 600 (thorough) definitions per back-end - including declarations with 25 and 44 units, scale "
+            "literals with up to 19 significant digits, integer literals beyond 2^53 and struct identifiers that are not in "
+            "upper-camel form -, every one compiled and executed against the real crate; "
             "names, symbols, prefixes, scales (exact literal value in the amount type), iteration order incl. ties, "
             "constants, lookups, constructors and all operator families are compared with the model; the permutation "
             "clause is checked on the observed dumps of each permutation group.",
             "Trusted: the Python model of the documented macro behaviour (lib/defgen.py), rustc. Definitions outside the grammar G (more than 3 further units, other literal forms, identifier words of one letter or with digits) are not enumerated.", "5.11"),
     "C12": (E2, "exhaustive application of every defect class to every well-formed base definition of a bounded grammar; each malformed definition expanded / type-checked by rustc, verdict and error location compared with the expectation",
-            "52 concrete defect forms covering every clause of the statement x 26 base definitions (all kinds, sizes, "
-            "basic and derived) = ~1 140 malformed definitions per back-end, plus tests/ui verbatim; each must carry an error "
+            "61 concrete defect forms covering every clause of the statement x 26 base definitions (all kinds, sizes, "
+            "basic and derived) = ~1 270 malformed definitions per back-end, plus tests/ui verbatim; each must carry an error "
             "inside its own line range while the well-formed control definitions compile clean.",
             "Trusted: rustc and the proc-macro diagnostics it reports; line-range attribution. Definitions outside the grammar (more than 3 further units, other identifier conventions) are not enumerated.", "5.12"),
     "C13": (E1, "bounded exhaustive exploration of rate construction, reciprocal, rate*q, q*rate, q/rate and their inverse paths on the real code against an exact-rational reference model",
-            "All 56 ordered type pairs of a representative set x all term/per/operand units x alphabet amounts; accessors "
+            "All 56 ordered type pairs of a representative set (incl. a type with a reference unit and exactly one further "
+            "unit, a single-unit type, a type without reference unit, the bare amount type) x all term/per/operand units x alphabet amounts; accessors "
             "and reciprocal bit-exact, products and quotients against exact rationals, inverse and reciprocal agreement "
             "on every depth-2 path.",
             TRUST_E1, "5.13"),
     "C14": (E1, "exhaustive enumeration of ALL conversion tables up to 3 entries over a 3-unit type (20 440 tables) and breadth-first closure of the temperature table, against a literal transcription of the statement / exact formulas",
             "Complete table space up to N = 3 (first-match, missing-pair and same-unit clauses bit-exact), tables with a row "
             "whose affine map overflows the Decimal representation at every position (a request it does not serve must be "
-            "answered as if it were absent); temperature table explored to depth 3 with exact formulas and path oracles.",
+            "answered as if it were absent), every table reached through a generic `Converter` bound (and through method-call "
+            "syntax and the fully qualified trait method, which must agree); temperature table explored to depth 3 with "
+            "exact formulas and path oracles.",
             TRUST_E1, "5.14"),
     "C15": (E1, "exhaustive enumeration of a format-specification grid x units x amounts on the real code against an independent layout model and an exact-rational rounding oracle",
             "Every combination of flag, fill/alignment, width (to 40) and precision (to 20) of the grid, plus 6 (thorough: 22) "
@@ -120,7 +126,8 @@ CLAIMED = {
     "C17": (E1, "exhaustive enumeration of (unit, amount) states through three serde channels on the real code with a bit-exact round-trip oracle and a collision table for injectivity",
             "All catalogue and synthetic units (incl. identifiers with acronyms and digit boundaries, and unit names shared "
             "between types) x value and adversarial amount alphabets, both back-ends, three channels; bit-exact oracle; every "
-            "deserialisation call after every other call of the history alphabet.",
+            "deserialisation call after every other call of the history alphabet; the round trips of all catalogue units are "
+            "repeated with serde_json built with `arbitrary_precision` (harness/qv-serde-ap).",
             TRUST_E1 + " serde / serde_json are trusted.", "5.17"),
     "C18": (E1, "exhaustive enumeration of operand tuples from totality alphabets (every IEEE class / Decimal range edges) through every operation under catch_unwind; precondition evaluated in exact rationals",
             "Every operation of the library on every unit pair with every combination of special values (f64) or range-edge "
@@ -131,7 +138,9 @@ CLAIMED = {
     "C19": (E3, "exhaustive enumeration of the feature-configuration lattice; each configuration built by cargo from the working tree, probed for the items it must expose, and a fixed corpus compared between minimal and full configurations",
             "quick: the 16 feature sets of the statement (each of 14 alone, none, all) at the two opposite corners of "
             "{std} x {f64, fpdec} x {serde} plus none/all at the other six, plus the 62 further closures of pairs of quantity "
-            "features under rotating opposite corners (168 builds), exposure probe per build, the workspace's downstream "
+            "features under rotating opposite corners (168 builds), exposure probe per build, a client probe per build (a crate "
+            "with its own items named like all predefined types and unit constants next to `use quantities::prelude::*` must "
+            "mean its own items in every configuration), the workspace's downstream "
             "crate built alone and with serde / std / doc enabled through the dependency, operation corpus (all unit pairs x "
             "14 amounts incl. the edges of the binary format) for all 14 features in minimal vs full configuration and "
             "across std / no_std / serde variants (f64). thorough: all 380 dependency-closed feature sets "
